@@ -19,6 +19,7 @@ From Coq Require Import ZArith List String Bool.
 From LV Require Import Base.Conc Base.Events Base.Lin Spec.Specs Proofs.LinProofs Model.MSQueue
   Proofs.MSQueueBase Proofs.MSQueueInv Proofs.MSQueueProofs.
 From LV Require Model.RWQueue Proofs.RWQueueProofs Model.OptQueue Proofs.OptQueueInv Proofs.OptQueueProofs.
+From LV Require Model.FcKernel Model.FcBatch Proofs.FcKernelProofs Proofs.FcContainers.
 Import ListNotations.
 Local Open Scope Z_scope.
 Local Open Scope string_scope.
@@ -115,6 +116,72 @@ Theorem C06_optqueue_next_chain_wellformed_no_loss_no_dup :
       @lp_run Fifo (@lp_init Fifo) atr = Some (map (OptQueue.val g) rs, f) /\ erase atr = hist (Conc.trace c).
 Proof. exact OptQueueProofs.optq_chain. Qed.
 Print Assumptions C06_optqueue_next_chain_wellformed_no_loss_no_dup.
+
+(** the property's own sentences for OptimisticQueue and RWQueue (from linearizability, LinProofs.fifo_* ) *)
+Theorem C06_optqueue_no_invention :
+  forall cf fuel ths c, Conc.reach (OptQueue.init_cfg cf fuel ths) c ->
+    forall i v, deq_returns (hist (Conc.trace c)) i (Some v) -> enqueued (hist (Conc.trace c)) v.
+Proof. intros cf fuel ths c Hr. apply fifo_no_invention. eapply OptQueueProofs.optqueue_linearizable; eauto. Qed.
+Print Assumptions C06_optqueue_no_invention.
+
+Theorem C06_optqueue_at_most_once :
+  forall cf fuel ths c, Conc.reach (OptQueue.init_cfg cf fuel ths) c ->
+    distinct_enqueues (hist (Conc.trace c)) ->
+    forall i1 i2 v, deq_returns (hist (Conc.trace c)) i1 (Some v) ->
+                    deq_returns (hist (Conc.trace c)) i2 (Some v) -> i1 = i2.
+Proof. intros cf fuel ths c Hr. apply fifo_at_most_once. eapply OptQueueProofs.optqueue_linearizable; eauto. Qed.
+Print Assumptions C06_optqueue_at_most_once.
+
+Theorem C06_optqueue_empty_only_if_empty_at_some_instant :
+  forall cf fuel ths c, Conc.reach (OptQueue.init_cfg cf fuel ths) c ->
+    exists lin, linearization Fifo (hist (Conc.trace c)) lin /\
+      forall i, deq_returns (hist (Conc.trace c)) i None ->
+        exists l1 a l2, lin = l1 ++ a :: l2 /\ l_inv a = i /\
+          @final Fifo (sinit Fifo) (map (fun a : lop Fifo => (l_op a, l_res a)) l1) = [].
+Proof.
+  intros cf fuel ths c Hr. destruct (OptQueueProofs.optqueue_linearizable _ _ _ _ Hr) as (lin & L).
+  exists lin. split; [exact L|]. intros i Hd. eapply fifo_empty_was_empty; eauto.
+Qed.
+Print Assumptions C06_optqueue_empty_only_if_empty_at_some_instant.
+
+Theorem C06_rwqueue_no_invention :
+  forall ic fuel ths c, Conc.reach (RWQueue.init_cfg ic fuel ths) c ->
+    forall i v, deq_returns (hist (Conc.trace c)) i (Some v) -> enqueued (hist (Conc.trace c)) v.
+Proof. intros ic fuel ths c Hr. apply fifo_no_invention. eapply RWQueueProofs.rwqueue_linearizable; eauto. Qed.
+Print Assumptions C06_rwqueue_no_invention.
+
+Theorem C06_rwqueue_at_most_once :
+  forall ic fuel ths c, Conc.reach (RWQueue.init_cfg ic fuel ths) c ->
+    distinct_enqueues (hist (Conc.trace c)) ->
+    forall i1 i2 v, deq_returns (hist (Conc.trace c)) i1 (Some v) ->
+                    deq_returns (hist (Conc.trace c)) i2 (Some v) -> i1 = i2.
+Proof. intros ic fuel ths c Hr. apply fifo_at_most_once. eapply RWQueueProofs.rwqueue_linearizable; eauto. Qed.
+Print Assumptions C06_rwqueue_at_most_once.
+
+Theorem C06_rwqueue_empty_only_if_empty_at_some_instant :
+  forall ic fuel ths c, Conc.reach (RWQueue.init_cfg ic fuel ths) c ->
+    exists lin, linearization Fifo (hist (Conc.trace c)) lin /\
+      forall i, deq_returns (hist (Conc.trace c)) i None ->
+        exists l1 a l2, lin = l1 ++ a :: l2 /\ l_inv a = i /\
+          @final Fifo (sinit Fifo) (map (fun a : lop Fifo => (l_op a, l_res a)) l1) = [].
+Proof.
+  intros ic fuel ths c Hr. destruct (RWQueueProofs.rwqueue_linearizable _ _ _ _ Hr) as (lin & L).
+  exists lin. split; [exact L|]. intros i Hd. eapply fifo_empty_was_empty; eauto.
+Qed.
+Print Assumptions C06_rwqueue_empty_only_if_empty_at_some_instant.
+
+(** cds::container::FCQueue over the flat-combining kernel (model and proof: LV.Model.FcKernel / FcBatch,
+    LV.Proofs.FcContainers, property C23's machinery).  PARTIAL: the statement covers the traces in which the
+    kernel model's "lost" event does not occur ([has_lost (trace c) = false]); removing that hypothesis is
+    work in progress in FcContainers.v. *)
+Theorem C06_fcqueue_linearizable_partial :
+  forall chk fuel mask npass ths c,
+    FcKernelProofs.ops_ok FcBatch.q_okop ths ->
+    Conc.reach (FcContainers.q_init_cfg chk fuel mask npass ths) c ->
+    FcKernelProofs.has_lost (Conc.trace c) = false ->
+    linearizable Fifo (FcContainers.fc_history Fifo FcBatch.res_dec FcBatch.q_dec (Conc.trace c)).
+Proof. exact FcContainers.fcqueue_linearizable_partA. Qed.
+Print Assumptions C06_fcqueue_linearizable_partial.
 
 (** non-vacuity: a concrete 3-thread run of MSQueue (item counter on, HP) with interleaved operations: one
     dequeue finds the queue empty, another thread dequeues the value 10; the history has 5 completed
